@@ -32,7 +32,7 @@ def payload(tag, v):
     if tag == 'string':
         return _name(v)
     if tag == 'byte_array':
-        return wire.sint(len(v), 32) + b''.join(wire.sint(x, 8) for x in v)
+        return wire.sint(len(v), 32) + bytes(v)     # elements 0..255
     if tag == 'int_array':
         return wire.sint(len(v), 32) + b''.join(wire.sint(x, 32) for x in v)
     if tag == 'long_array':
@@ -68,6 +68,8 @@ def to_pynbt(tag, v):
     if tag == 'compound':
         return pynbt.TAG_Compound({n: to_pynbt(t, x)
                                    for n, (t, x) in v.items()})
+    if tag == 'byte_array':
+        return C[tag](bytearray(v))
     if tag.endswith('_array'):
         return C[tag](list(v))
     return C[tag](v)
@@ -115,7 +117,7 @@ def strategy(max_leaves=8):
         'int': st.integers(-2 ** 31, 2 ** 31 - 1),
         'long': st.integers(-2 ** 63, 2 ** 63 - 1), 'float': f32,
         'double': f64, 'string': names,
-        'byte_array': st.lists(st.integers(-128, 127), max_size=5),
+        'byte_array': st.lists(st.integers(0, 255), max_size=5),
         'int_array': st.lists(st.integers(-2 ** 31, 2 ** 31 - 1), max_size=4),
         'long_array': st.lists(st.integers(-2 ** 63, 2 ** 63 - 1),
                                max_size=3),
